@@ -2714,6 +2714,10 @@ func runC13(r *Rng, tier string, n int) {
 			realHistory(append(h, oks[r.Intn(len(oks))]))
 		}
 	}
+	// ---- P. every failing start through ListenAndServe for every srv.Net value on an address the
+	//         harness knows: afterwards the process holds no new socket, nothing listens there, and
+	//         the corrected start of the same Server value on the SAME address serves a life
+	failingStartsAtKnownAddresses(r)
 	// ---- K. every way a serve call ends by itself: a non-temporary Accept / ReadFrom error, or the
 	//         listener / PacketConn closed from outside, at every point of a life (idle, handler in
 	//         flight, after a served request, after temporary errors of both flavours, after a client
@@ -3579,9 +3583,15 @@ func realRun(network string, k int, withCtx bool) {
 // precedence; an AS udp life leaves srv.Listener as the previous life left it); how = "LS":
 // srv.Net / srv.Addr are set and ListenAndServe opens the socket itself - srv.PacketConn and
 // srv.Listener are left exactly as the previous lives of this Server value left them.
-// network: udp | tcp | tcp-tls.  Returns "" or an infrastructure problem (never a verdict).
+// how = "LA": ListenAndServe on the address srv.Addr already holds (failaddr.go).
+// network: udp | tcp | tcp-tls, or one of their 4 / 6 variants.  Returns "" or an infrastructure
+// problem (never a verdict).
 func realOnce(srv *dns.Server, life int, how, network string, k int, withCtx bool) string {
 	base := runtime.NumGoroutine()
+	// srv.Net gets the value asked for (udp4, tcp6-tls, ...); the harness's own side - clients,
+	// noise, probes - only needs the family
+	srvNet := network
+	network = netFamily(network)
 	var mu sync.Mutex
 	var ev []string
 	logf := func(s string) { mu.Lock(); ev = append(ev, s); mu.Unlock() }
@@ -3600,7 +3610,7 @@ func realOnce(srv *dns.Server, life int, how, network string, k int, withCtx boo
 	})
 	var addr string
 	var sock any // the socket the server of this life listens on, where the harness can get at it
-	in0 := map[string]any{"network": network, "start": how, "life_of_the_server_value": life}
+	in0 := map[string]any{"network": srvNet, "start": how, "life_of_the_server_value": life}
 	if network == "tcp-tls" {
 		srv.TLSConfig = serverTLS()
 		if srv.TLSConfig == nil {
@@ -3609,7 +3619,10 @@ func realOnce(srv *dns.Server, life int, how, network string, k int, withCtx boo
 	}
 	switch {
 	case how == "LS":
-		srv.Net, srv.Addr = network, "127.0.0.1:0"
+		srv.Net, srv.Addr = srvNet, "127.0.0.1:0"
+	case how == "LA":
+		// ListenAndServe on the address srv.Addr already holds
+		srv.Net = srvNet
 	case network == "udp":
 		pc, err := net.ListenPacket("udp", "127.0.0.1:0")
 		if err != nil {
@@ -3638,7 +3651,7 @@ func realOnce(srv *dns.Server, life int, how, network string, k int, withCtx boo
 				served <- fmt.Errorf("serve call panicked: %v", r)
 			}
 		}()
-		if how == "LS" {
+		if how != "AS" {
 			served <- srv.ListenAndServe()
 		} else {
 			served <- srv.ActivateAndServe()
@@ -3657,7 +3670,7 @@ func realOnce(srv *dns.Server, life int, how, network string, k int, withCtx boo
 	case <-time.After(waitLong):
 		return "server did not start"
 	}
-	if how == "LS" {
+	if how != "AS" {
 		// (set under srv.lock before NotifyStartedFunc ran)
 		if network == "udp" {
 			addr = srv.PacketConn.LocalAddr().String()
@@ -3740,7 +3753,7 @@ func realOnce(srv *dns.Server, life int, how, network string, k int, withCtx boo
 		}
 		sd <- err
 	}()
-	in := map[string]any{"network": network, "start": how, "handlers_in_flight": k, "ctx_expiry": withCtx, "life_of_the_server_value": life}
+	in := map[string]any{"network": srvNet, "start": how, "handlers_in_flight": k, "ctx_expiry": withCtx, "life_of_the_server_value": life}
 	if withCtx {
 		cancel()
 		select {
